@@ -623,6 +623,16 @@ package spine
 // representation invariant: the inner maps of different peers are different objects
 //@ define WINV(r) = r.pendingWriteApprovals != nil && r.writeApprovalReceived != nil && (forall a string, b string :: has(r.pendingWriteApprovals, a) && has(r.pendingWriteApprovals, b) && a != b ==> r.pendingWriteApprovals[a] != r.pendingWriteApprovals[b]) && (forall a string, b string :: has(r.writeApprovalReceived, a) && has(r.writeApprovalReceived, b) && a != b ==> r.writeApprovalReceived[a] != r.writeApprovalReceived[b])
 
+// teardown of one connection (C10, C12): every pending approval and every approval tally of that peer is dropped, those
+// of all other peers stay as they are
+//@ func (*FeatureLocal).CleanWriteApprovalCaches
+//@   requires r != nil
+//@   ensures[C10,C12] pending-gone: forall m model.MsgCounterType :: !PEND(r, ski, m)
+//@   ensures[C10,C12] tally-gone: forall m model.MsgCounterType :: TALLY(r, ski, m) == 0
+//@   ensures[C10,C12] others-untouched: forall s string, m model.MsgCounterType :: s != ski ==> (PEND(r, s, m) <==> old(PEND(r, s, m))) && TALLY(r, s, m) == old(TALLY(r, s, m))
+//@   ensures[C10,C12] one-section: acquisitions(r.muxWriteReceived) == 1 && acquisitions(r.muxResponseCB) == 1 && locksUnchanged()
+//@   modifies map(gomap[string]map[model.MsgCounterType]*time.Timer), map(gomap[string]map[model.MsgCounterType]int), held
+
 // Race with the approval timeout (clauses tagged C12r, proved under the interference clause): between reading the timer and
 // re-acquiring muxResponseCB the timer of any pending write may fire (its entry disappears, the timer thread answers it).
 //@ func (*FeatureLocal).ApproveOrDenyWrite
